@@ -361,3 +361,229 @@ Theorem c09_model_accepted ops : c09_monitor ops (run rinit ops) = true.
 Proof.
   apply (prog_ok_run c09_same) with (pre := []). intros t. apply list_eqb_refl, oev_eqb_refl.
 Qed.
+
+(** * Part 4: the clauses of C08 / C09 as statements about [deliver (exec rinit ops)] *)
+
+(** ** who receives a delivery *)
+Lemma in_deliver_iff ops d n tr :
+  In (n, tr) (deliver (exec rinit ops) d) <->
+  exists h s, spec_cfg n ops = Some h /\ spec_started n ops = Some s
+              /\ h_sub h = d_sub d /\ h_subtopic h = d_topic d /\ tr = spec_trace h s d.
+Proof.
+  destruct (exec_inv ops) as [_ _ _ Hf Hn]. set (st := exec rinit ops) in *. split.
+  - intros Hp. rewrite deliver_flat in Hp. apply in_flat_map in Hp as (hs & Hin & Hp).
+    unfold one_copy in Hp. destruct (hs_started hs) as [s|] eqn:Es; [|destruct Hp].
+    destruct (receives d hs) eqn:Er; [|destruct Hp]. destruct Hp as [Hp|[]]. injection Hp as Hname Htr.
+    pose proof (find_in_nodup _ _ Hn Hin) as F. fold (find_handler (hname hs) st) in F.
+    rewrite Hf, Hname in F. destruct (spec_cfg n ops) as [h|]; [|discriminate]. injection F as F'.
+    assert (F1 : hs_cfg hs = h) by now rewrite <- F'.
+    assert (F2 : hs_started hs = spec_started n ops) by now rewrite <- F'.
+    exists h, s. unfold receives in Er. rewrite Es, F1 in Er. apply andb_true_iff in Er as [E1 E2].
+    apply N.eqb_eq in E1, E2. rewrite <- F2, Es, <- Htr, F1, dispatch_spec. auto.
+  - intros (h & s & Hc & Hs & H1 & H2 & ->). specialize (Hf n). rewrite Hc, Hs in Hf.
+    apply find_some in Hf as [Hin Hname]. rewrite deliver_flat. apply in_flat_map.
+    exists (HS h (Some s)). split; [assumption|]. unfold one_copy, receives. simpl.
+    rewrite H1, H2, !N.eqb_refl. simpl. unfold name_is in Hname. simpl in Hname.
+    apply N.eqb_eq in Hname. left. unfold hname. simpl. now rewrite Hname, dispatch_spec.
+Qed.
+
+Lemma deliver_names_in d l x : In x (map fst (flat_map (one_copy d) l)) -> In x (map hname l).
+Proof.
+  induction l as [|a l IH]; simpl; [tauto|]. rewrite map_app, in_app_iff. intros [H|H]; [|right; now apply IH].
+  left. unfold one_copy in H. destruct (hs_started a); [|destruct H]. destruct (receives d a); [|destruct H].
+  destruct H as [H|[]]. now simpl in H.
+Qed.
+
+Lemma deliver_nodup ops d : NoDup (map fst (deliver (exec rinit ops) d)).
+Proof.
+  destruct (exec_inv ops) as [_ _ _ _ Hn]. rewrite deliver_flat. unfold names in Hn.
+  induction (handlers (exec rinit ops)) as [|a l IH]; simpl; [constructor|].
+  inversion Hn as [|? ? Ha Hl]; subst. rewrite map_app. unfold one_copy at 1.
+  destruct (hs_started a); [|now apply IH]. destruct (receives d a); [|now apply IH].
+  simpl. constructor; [|now apply IH]. intros H. apply Ha. now apply deliver_names_in in H.
+Qed.
+
+(** ** projections of the prescribed trace *)
+Lemma flat_map_map_nil {A B C} (g : B -> list C) (f : A -> B) l :
+  (forall x, g (f x) = []) -> flat_map g (map f l) = [].
+Proof. intros H. induction l as [|a l IH]; simpl; [reflexivity|]. now rewrite H, IH. Qed.
+
+Definition fn_of (e : ev) : list (N * ctxv) := match e with EFn f c => [(f, c)] | _ => [] end.
+Definition pub_of (e : ev) : list (N * N * list omsg) := match e with EPublish p t o => [(p, t, o)] | _ => [] end.
+Definition settle_of (e : ev) : list bool := match e with ESettle b => [b] | _ => [] end.
+
+Lemma exits_nil {C} (g : ev -> list C) ids o : (forall w, g (EExit w) = []) -> flat_map g (exits ids o) = [].
+Proof. intros H. unfold exits. destruct o; try reflexivity; now apply flat_map_map_nil. Qed.
+
+Lemma spec_fn_calls h s d : fn_calls (spec_trace h s d) = [(h_fn h, overlay (d_ctx d) h)].
+Proof.
+  unfold fn_calls, spec_trace. fold fn_of. rewrite !flat_map_app.
+  rewrite (flat_map_map_nil fn_of) by reflexivity. rewrite (flat_map_map_nil fn_of) by reflexivity.
+  rewrite (exits_nil fn_of) by reflexivity. simpl.
+  destruct (chain_outcome h s d) as [[|x l]|?|]; try reflexivity.
+  rewrite flat_map_app, (flat_map_map_nil fn_of) by reflexivity. now destruct (h_pub h).
+Qed.
+
+Definition expected_publish (h : hcfg) (s : started) (d : delivery) : list (N * N * list omsg) :=
+  match chain_outcome h s d, h_pub h with
+  | Ret (x :: l), PReal id _ =>
+      [(id, h_pubtopic h, map (fun m => (m, out_ctx h (overlay (d_ctx d) h) m)) (x :: l))]
+  | _, _ => []
+  end.
+
+Lemma spec_publish_calls h s d : publish_calls (spec_trace h s d) = expected_publish h s d.
+Proof.
+  unfold publish_calls, spec_trace, expected_publish. fold pub_of. rewrite !flat_map_app.
+  rewrite (flat_map_map_nil pub_of) by reflexivity. rewrite (flat_map_map_nil pub_of) by reflexivity.
+  rewrite (exits_nil pub_of) by reflexivity. simpl.
+  destruct (chain_outcome h s d) as [[|x l]|?|]; try reflexivity.
+  rewrite flat_map_app, (flat_map_map_nil pub_of) by reflexivity. now destruct (h_pub h).
+Qed.
+
+(** the one settlement is the one C02's [handle] prescribes for this chain result *)
+Lemma spec_settles h s d :
+  settles (spec_trace h s d) =
+  [handled_ok (pub_kind (h_pub h)) (d_pb d) (CR PreNone (chain_outcome h s d))].
+Proof.
+  unfold settles, spec_trace. fold settle_of. rewrite !flat_map_app.
+  rewrite (flat_map_map_nil settle_of) by reflexivity. rewrite (flat_map_map_nil settle_of) by reflexivity.
+  rewrite (exits_nil settle_of) by reflexivity. simpl. unfold handled_ok. simpl.
+  destruct (chain_outcome h s d) as [[|x l]|?|]; try reflexivity.
+  rewrite flat_map_app, (flat_map_map_nil settle_of) by reflexivity.
+  destruct (h_pub h); reflexivity.
+Qed.
+
+Lemma handled_ok_is_handle pk pb (r : chain_result M) : cr_pre r = PreNone ->
+  handled_ok pk pb r = settle_eqb (st (fst (handle pk pb r))) Acked.
+Proof.
+  intros H. destruct (handle_ack_iff pk pb r H) as [[A1 A2] [N1 N2]].
+  destruct (handled_ok pk pb r) eqn:E.
+  - now rewrite A2.
+  - now rewrite N2.
+Qed.
+
+(** the chain result when no appending middleware is in the handler's effective chain *)
+Lemma chain_outcome_plain h s d :
+  Forall (fun r => r_app r = None) (effective (h_name h) (s_chain s)) ->
+  chain_outcome h s d = fn_outcome h (d_out d).
+Proof.
+  intros H. unfold chain_outcome.
+  assert (E : flat_map app_of (rev (effective (h_name h) (s_chain s))) = []).
+  { apply Forall_rev in H. induction H as [|r l Hr _ IH]; simpl; [reflexivity|].
+    unfold app_of at 1. now rewrite Hr. }
+  rewrite E. destruct (fn_outcome h (d_out d)); simpl; now rewrite ?app_nil_r.
+Qed.
+
+(** ** context values *)
+Lemma overlay_fresh h : overlay cx0 h = ctx_of h.
+Proof. unfold overlay, ctx_of, ov. simpl. repeat match goal with |- context [N.eqb ?x 0] => destruct (N.eqb_spec x 0) as [->|] end; reflexivity. Qed.
+
+Lemma overlay_fields c h :
+  (h_name h <> 0%N -> c_handler (overlay c h) = h_name h)
+  /\ (c_pubname (overlay c h) = if N.eqb (pub_ty (h_pub h)) 0 then c_pubname c else pub_ty (h_pub h))
+  /\ (h_subty h <> 0%N -> c_subname (overlay c h) = h_subty h)
+  /\ (h_subtopic h <> 0%N -> c_subtopic (overlay c h) = h_subtopic h)
+  /\ (h_pubtopic h <> 0%N -> c_pubtopic (overlay c h) = h_pubtopic h)
+  /\ (h_name h = 0%N -> c_handler (overlay c h) = c_handler c)
+  /\ (h_subty h = 0%N -> c_subname (overlay c h) = c_subname c)
+  /\ (h_subtopic h = 0%N -> c_subtopic (overlay c h) = c_subtopic c)
+  /\ (h_pubtopic h = 0%N -> c_pubtopic (overlay c h) = c_pubtopic c).
+Proof.
+  unfold overlay, ov. simpl. repeat split; intros H; try (apply N.eqb_neq in H; now rewrite H);
+    try (now rewrite H).
+Qed.
+
+Lemma overlay_idem c h : overlay (overlay c h) h = overlay c h.
+Proof.
+  unfold overlay, ov. simpl. f_equal;
+    match goal with |- context [N.eqb ?x 0] => destruct (N.eqb x 0); reflexivity end.
+Qed.
+
+(** on produced messages: the consumed object keeps what it had, fresh objects start empty *)
+Lemma out_ctx_spec h c0 m :
+  out_ctx h (overlay c0 h) m = overlay (if N.eqb m 0 then c0 else cx0) h.
+Proof. unfold out_ctx. destruct (N.eqb m 0); [apply overlay_idem|reflexivity]. Qed.
+
+Lemma produced_ctx h s d p t outs m c :
+  In (p, t, outs) (publish_calls (spec_trace h s d)) -> In (m, c) outs ->
+  c = overlay (if N.eqb m 0 then d_ctx d else cx0) h.
+Proof.
+  rewrite spec_publish_calls. unfold expected_publish.
+  destruct (chain_outcome h s d) as [[|x l]|?|]; try (intros []).
+  destruct (h_pub h); try (intros []; fail). intros [Hq|[]]. injection Hq as _ _ <-.
+  intros Hin. change (In (m, c) (map (fun m0 => (m0, out_ctx h (overlay (d_ctx d) h) m0)) (x :: l))) in Hin.
+  apply in_map_iff in Hin as (m' & E & _). injection E as <- <-. apply out_ctx_spec.
+Qed.
+
+(** ** C09: the order projection of the prescribed trace, for ALL chains and decorator lists *)
+Lemma c09_proj_app a b : c09_proj (a ++ b) = c09_proj a ++ c09_proj b.
+Proof. apply flat_map_app. Qed.
+Lemma c09_proj_map {A} (f : A -> ev) (g : A -> oev) l :
+  (forall x, c09_proj [f x] = [g x]) -> c09_proj (map f l) = map g l.
+Proof.
+  intros H. induction l as [|a l IH]; [reflexivity|]. simpl map.
+  change (f a :: map f l) with ([f a] ++ map f l). now rewrite c09_proj_app, H, IH.
+Qed.
+
+Definition spec_order (h : hcfg) (s : started) (d : delivery) : list oev :=
+  let ids := map r_id (effective (h_name h) (s_chain s)) in
+  let o := chain_outcome h s d in
+  map OSub (s_subdecs s)
+  ++ map OEnter ids ++ [OFn] ++ match o with Panic => [] | _ => map OExit (rev ids) end
+  ++ match o with
+     | Ret (_ :: _) => map OPubDec (s_pubdecs s) ++ match h_pub h with PReal _ _ => [OPub] | _ => [] end
+     | _ => []
+     end.
+
+Lemma spec_trace_order h s d : c09_proj (spec_trace h s d) = spec_order h s d.
+Proof.
+  unfold spec_trace, spec_order. cbv zeta. rewrite !c09_proj_app.
+  rewrite (c09_proj_map _ OSub) by reflexivity. rewrite (c09_proj_map _ OEnter) by reflexivity.
+  replace (c09_proj [EFn (h_fn h) (overlay (d_ctx d) h)]) with [OFn] by reflexivity.
+  assert (Hex : c09_proj (exits (map r_id (effective (h_name h) (s_chain s))) (chain_outcome h s d))
+                = match chain_outcome h s d with Panic => [] | _ => map OExit (rev (map r_id (effective (h_name h) (s_chain s)))) end).
+  { unfold exits. destruct (chain_outcome h s d); try reflexivity; now apply c09_proj_map. }
+  rewrite Hex, <- !app_assoc. do 4 f_equal.
+  destruct (chain_outcome h s d) as [[|x l]|?|]; try reflexivity.
+  rewrite c09_proj_app, (c09_proj_map _ OPubDec) by reflexivity. now destruct (h_pub h).
+Qed.
+
+Lemma effective_sound n chain r : In r (effective n chain) -> r_router r = true \/ r_hname r = n.
+Proof.
+  intros H. apply filter_In in H as [_ H]. unfold applies in H. apply orb_true_iff in H as [H|H]; [now left|].
+  right. now apply N.eqb_eq.
+Qed.
+
+Lemma effective_complete n chain r :
+  In r chain -> r_router r = true \/ r_hname r = n -> In r (effective n chain).
+Proof.
+  intros Hin H. apply filter_In. split; [assumption|]. unfold applies. apply orb_true_iff.
+  destruct H as [H|H]; [now left|right; now apply N.eqb_eq].
+Qed.
+
+(** ** a handler freezes exactly what was registered before the Run/RunHandlers that starts it *)
+Lemma scan_app_start n : forall pre a post,
+  scan n a pre = None -> a || existsb (is_add n) pre = true -> scan n a (pre ++ OStart :: post) = Some pre.
+Proof.
+  induction pre as [|x pre IH]; intros a post Hs Ha; simpl in *.
+  - rewrite orb_false_r in Ha. now rewrite Ha.
+  - destruct (is_start x && a); [discriminate|].
+    destruct (scan n (a || is_add n x) pre) eqn:E; [discriminate|].
+    rewrite IH; [reflexivity|assumption|]. now rewrite <- orb_assoc.
+Qed.
+
+Lemma find_app_some {A} (f : A -> bool) l1 l2 x : find f l1 = Some x -> find f (l1 ++ l2) = Some x.
+Proof. induction l1 as [|a l1 IH]; simpl; [discriminate|]. now destruct (f a). Qed.
+
+Theorem started_freezes pre post n h :
+  spec_cfg n pre = Some h -> spec_started n pre = None ->
+  find_handler n (exec rinit (pre ++ OStart :: post)) =
+  Some (HS h (Some (ST (regs_of pre) (pdecs_of pre) (sdecs_of pre)))).
+Proof.
+  intros Hc Hs. destruct (exec_inv (pre ++ OStart :: post)) as [_ _ _ Hf _]. rewrite Hf.
+  assert (Hc' : spec_cfg n (pre ++ OStart :: post) = Some h).
+  { unfold spec_cfg in *. destruct (find (is_add n) pre) eqn:F; [|discriminate].
+    now rewrite (find_app_some _ _ _ _ F). }
+  rewrite Hc'. unfold spec_started in *. destruct (scan n false pre) eqn:E; [discriminate|].
+  rewrite scan_app_start; [reflexivity|assumption|]. simpl. now rewrite spec_cfg_existsb, Hc.
+Qed.
